@@ -68,7 +68,19 @@ def opsKmer : List String → Option String
       | _ => none
     match mkAdapter ty sq me mo rw aw ind fa with
     | .error e => pure (showMkErr e)
-    | .ok (a, _) => pure (if safeDomain a rd then "True" else "False")
+    | .ok (_, _) => pure (if asciiNoNul rd then "True" else "False")   -- the domain of `C07.prefilter_safe_partial`
+  -- prefilter <type> <hex seq> <rateBits> <minOverlap> <readWild> <adapterWild> <indels> <hex read> [forceAnywhere]
+  --   the verdict `match_to` acts on: `self.kmer_finder.kmers_present(...)` incl. the `ShortReadsPassKmerFinder` wrapper
+  | "prefilter" :: ty :: sq :: rb :: mo :: rw :: aw :: ind :: rd :: rest => do
+    let ty ← parseType ty; let sq ← unhex sq; let me ← floatOfBits rb; let mo ← mo.toNat?
+    let rw ← parseBool rw; let aw ← parseBool aw; let ind ← parseBool ind; let rd ← unhex rd
+    let fa ← match rest with
+      | [] => some false
+      | [x] => parseBool x
+      | _ => none
+    match mkAdapter ty sq me mo rw aw ind fa with
+    | .error e => pure (showMkErr e)
+    | .ok (a, _) => pure (if shortReadPasses a rd || kmersPresent (finderFor a) (finderInput a rd) [] then "True" else "False")
   -- finderkind <type> <hex seq> <rateBits> <minOverlap> <readWild> <adapterWild> <indels> [forceAnywhere] : mock | masks
   | "finderkind" :: ty :: sq :: rb :: mo :: rw :: aw :: ind :: rest => do
     let ty ← parseType ty; let sq ← unhex sq; let me ← floatOfBits rb; let mo ← mo.toNat?
